@@ -56,7 +56,12 @@ def run_verus(path, rlimit=None, threads=None, extra=()):
         cmd += ['--num-threads', str(threads)]
     cmd += list(extra)
     t0 = time.time()
-    p = subprocess.run(cmd, cwd=os.path.dirname(path), capture_output=True, text=True)
+    try:
+        p = subprocess.run(cmd, cwd=os.path.dirname(path), capture_output=True, text=True,
+                           timeout=int(os.environ.get('VERIF_VERUS_TIMEOUT', '900')))
+    except subprocess.TimeoutExpired:
+        # a verifier that does not come back is a tool limit: undecided, never an alarm
+        return cmd, 124, '', '{"level":"error","message":"verus timed out (wall clock)","spans":[]}', time.time() - t0
     wall = time.time() - t0
     return cmd, p.returncode, p.stdout, p.stderr, wall
 
